@@ -68,6 +68,8 @@ func c12Doc(name string, v2pub phase0.BLSPubKey) ([]byte, error) {
 		return []byte(``), nil
 	case "braces":
 		return []byte(`{}`), nil
+	case "null":
+		return []byte(`null`), nil
 	}
 	panic("unknown doc " + name)
 }
@@ -151,7 +153,7 @@ func c12Expect(doc string, v int) (fee string, nrel int, isErr bool) {
 }
 
 func c12Units(tier string) []hx.Unit {
-	outcomes := []string{"A", "B", "U", "err", "malformed", "empty", "braces"}
+	outcomes := []string{"A", "B", "U", "err", "malformed", "empty", "braces", "null"}
 	reqKinds := []string{"lookup1", "lookup2", "auction1", "auction2", "register"}
 	// request sets: singles and unordered pairs
 	var reqSets [][]string
@@ -368,7 +370,7 @@ func init() {
 	hx.Register(&hx.Prop{
 		ID:    "C12",
 		Title: "The block relay keeps answering whatever the config source does",
-		Rule: "for every sequence of 2 (thorough 3) fetch outcomes over {doc A, doc B, doc U (one validator unresolvable), error, malformed, empty, '{}'} (the first consumed by the constructor) and every set of 1-2 concurrent requests over {lookup v1, lookup v2, auction v1, auction v2, registration round}: all interleavings of the refresher and the request goroutines on the real blockrelay service within the preemption bound (quick 1, thorough 2), followed by a further refresh and lookups; " +
+		Rule: "for every sequence of 2 (thorough 3) fetch outcomes over {doc A, doc B, doc U (one validator unresolvable), error, malformed, empty, '{}', 'null'} (the first consumed by the constructor) and every set of 1-2 concurrent requests over {lookup v1, lookup v2, auction v1, auction v2, registration round}: all interleavings of the refresher and the request goroutines on the real blockrelay service within the preemption bound (quick 1, thorough 2), followed by a further refresh and lookups; " +
 			"oracle: every call returns, no goroutine blocked, final lookups answer from the last good document (fallback if none); non-trivial = at least one contended scheduling point; distinct = distinct request-result vectors",
 		Assumptions: []string{
 			"RWMutex has Go's writer preference (a pending writer blocks new readers)",
